@@ -4,12 +4,13 @@ code, with the process environment set per case) vs Rws.Cors (Lean model, enviro
 parameter).  Oracle on the implementation alone, written from the property statement:
 exact membership of the Origin in the comma-split configuration, grants = configuration.
 The same oracle judges the Access-Control-* headers of whole responses of the server entry points
-(serve mode of the harness, one process per configuration; implementation only).
+(serve mode of the harness, one process per configuration), and those responses are compared with the composed server model -
+the tie of the server-level theorems in RwsProofs/C11Server.lean.
 Input classes added by the generator audit: vlib/gen_c11.py (table: audit/C11/AUDIT.md)."""
 import itertools, unicodedata, threading
 from vlib import common as C, gen_c11 as X
 
-DRIVERS = ['Cors']   # model driver files this check runs: scopes translator failures to the tables they (and the proofs) import
+DRIVERS = ['Cors', 'Serve']   # model driver files this check runs: scopes translator failures to the tables they (and the proofs) import
 TRUSTED = ['Rust std: env::var (Err for absent or non-Unicode), str::parse::<bool>, str::split, Vec::contains, [String]::join (modelled in Rws.Cors)',
            'Rust std str::to_lowercase: per-scalar tables probed from the toolchain by translator/gens/cors.py (Rws.Gen.Unicode); algorithm (UTF-8, Final_Sigma) hand-written in Rws.Unicode and tied by this differential run (every scalar value in thorough)',
            'harness sets/removes the RWS_CONFIG_CORS_* process variables per case and restores them (single-threaded codec loop)']
@@ -148,7 +149,7 @@ def judge(res, entry, line, out, want):
     if set(w) != set(g) or any(v is not None and g[n] != v for n, v in w.items()):
         res.fail(entry + ':wrong-grants', line, out, None, f'expected exactly {want}'); return
 
-# ------------------------------------------------------------------ whole responses (implementation only; oracle = the same `want_get`)
+# ------------------------------------------------------------------ whole responses (real entry points vs the composed server model; oracle = the same `want_get`)
 def run_server(plan):
     """one `serve` harness process per environment: [(label, pairs, descriptor, Case, parsed result)]"""
     from vlib import serve as S, servecheck as K
@@ -159,8 +160,8 @@ def run_server(plan):
         tree.file('root/file.txt', b'0123456789' * 30).file('root/sub/page.html', b'<p>page</p>').file('secret.txt', b'above the root')
         cases = [K.mk(tree, d['method'], d['target'].replace('/FILE', '/file.txt'), d['headers'], body=d['body'], version=d['version'], entry=d['entry'], kind=d['kind']) for d in reqs]
         env = [(k, v) for k, v in S.DEFAULT_ENV if not k.startswith('RWS_CONFIG_CORS')] + list(pairs)
-        rs = K.run_batches([(tree, cases)], with_model=False, env=env)
-        out[i] = [(label, pairs, d, c, r) for d, (c, r, il, ml) in zip(reqs, rs)] if tree.setup_ok else 'setup failed: ' + label
+        rs = K.run_batches([(tree, cases)], with_model=True, env=env)
+        out[i] = [(label, pairs, d, c, r, il, ml) for d, (c, r, il, ml) in zip(reqs, rs)] if tree.setup_ok else 'setup failed: ' + label
     ts = [threading.Thread(target=work, args=(i,)) for i in range(len(plan))]
     for t in ts: t.start()
     for t in ts: t.join()
@@ -173,8 +174,12 @@ def judge_server(res, outs):
     for group in outs:
         if not isinstance(group, list):
             res.fail('server:setup', str(group), None, None, 'tree / environment of the whole-server run could not be set up'); continue
-        for label, pairs, d, c, r in group:
+        for label, pairs, d, c, r, il, ml in group:
             res.evaluations += 1
+            if ml is not None:
+                # the tie of the server-level theorems (C11Server.lean): the composed server model answers the same bytes
+                res.programs += 1
+                if il != ml: res.disagree(f'serve mode; env {env_field(pairs)}; {c.line[:400]}', il[:300], ml[:300], 'Server (CORS grants in whole responses)')
             res.count('server: ' + d['kind']); res.count('server env: ' + label)
             case = f'serve mode; env {env_field(pairs)}; {c.line[:600]}'
             res.distinct.add(hash(case))
